@@ -192,6 +192,19 @@ class Eval:
                 else:
                     r = float(_LIBM1[name](x)) if abs(x) < 2 ** 62 else x
                 return f2b(w, float(r))
+            if name in ('nextafter', 'nextafterf') and len(a) == 3 and a[1].w == w and a[2].w == w:
+                # IEEE next-after on the bit patterns: towards y by one representable value
+                bx, by = self.v(a[1]), self.v(a[2])
+                x, y = b2f(w, bx), b2f(w, by)
+                if x != x or y != y:
+                    raise NoValue('nextafter of NaN')
+                if x == y:
+                    return by
+                sign = 1 << (w - 1)
+                if x == 0:
+                    return (sign if y < 0 else 0) | 1
+                up = (y > x) == (x > 0)            # magnitude grows when moving away from zero
+                return bx + 1 if up else bx - 1
             raise NoValue('function ' + str(name))
         if op in ('fptosi', 'fptoui'):
             x = b2f(a[0].w, self.v(a[0]))
